@@ -167,6 +167,34 @@ def tag(annotated, base):
     return tags
 
 
+def match_keys(lines):
+    """keys by which code lines of two versions are aligned: the stripped text, except that a line closing a block carries the
+    text of the line that opened it (so that the `}` of a newly inserted block is not confused with its neighbours)"""
+    keys = []
+    stack = []
+    prev = ""
+    for l in lines:
+        t = l.strip()
+        c = strip_strings(t)
+        opens, closes = c.count("{"), c.count("}")
+        key = t
+        if c.startswith("}"):
+            opener = stack.pop() if stack else "?"
+            closes -= 1
+            key = t + " @" + opener
+        # remaining closers on this line (rare after rustfmt)
+        for _ in range(min(closes, opens)):
+            opens -= 1; closes -= 1
+        for _ in range(closes):
+            if stack:
+                stack.pop()
+        for _ in range(opens):
+            stack.append(prev if t == "{" else t)
+        keys.append(key)
+        prev = t
+    return keys
+
+
 def weave(unit, repo=None, variant=None):
     """returns dict(text, rules, changed, fuzzy_fns, code_lines, spec_lines, base_same)"""
     udir = os.path.join(UNITS, unit)
@@ -175,7 +203,7 @@ def weave(unit, repo=None, variant=None):
     base = [l for l in open(os.path.join(udir, "base.rs")).read().split("\n") if l.strip()]
     annotated = expand_includes(os.path.join(udir, f"annotated_{variant}.rs" if variant else "annotated.rs"))
     tags = tag(annotated, base)
-    sm = difflib.SequenceMatcher(None, [l.strip() for l in base], [l.strip() for l in cur], autojunk=False)
+    sm = difflib.SequenceMatcher(None, match_keys(base), match_keys(cur), autojunk=False)
     emit = {k: [] for k in range(len(base))}      # base index -> indices of the current lines emitted in its place
     before = {k: [] for k in range(len(base) + 1)}  # indices of inserted current lines, emitted just before base k
     eqmap = {}                                       # base index -> current index, for unchanged lines
